@@ -9,7 +9,9 @@ import (
 	"go/constant"
 	"go/token"
 	"go/types"
+	"reflect"
 	"sort"
+	"unsafe"
 
 	"golang.org/x/tools/go/callgraph"
 	"golang.org/x/tools/go/ssa"
@@ -133,6 +135,9 @@ func purePredicate(fn *ssa.Function) bool {
 
 var synthCache = map[[2]ssa.Value]ssa.Value{}
 
+// fresh: the values substInto has allocated (the only ones it may dress)
+var fresh = map[ssa.Value]bool{}
+
 // substInto rebuilds the callee value v over the arguments of call c: the
 // result is a detached SSA value (no block, no position) whose operands are
 // the caller's values. Only shapes the rules look at are rebuilt.
@@ -145,6 +150,12 @@ func substInto(c *ssa.Call, h *ssa.Function, v ssa.Value, depth int) ssa.Value {
 		return sv
 	}
 	var out ssa.Value
+	if _, isParam := v.(*ssa.Parameter); !isParam && !dependsOnParam(v, map[ssa.Value]bool{}, 0) {
+		// nothing to substitute: the callee's own value (a constant, a global,
+		// an error it constructs) stands for itself
+		synthCache[key] = v
+		return v
+	}
 	switch x := v.(type) {
 	case *ssa.Const:
 		out = x
@@ -161,8 +172,32 @@ func substInto(c *ssa.Call, h *ssa.Function, v ssa.Value, depth int) ssa.Value {
 		}
 	case *ssa.UnOp:
 		if a := substInto(c, h, x.X, depth+1); a != nil {
-			out = &ssa.UnOp{Op: x.Op, X: a}
+			out = &ssa.UnOp{Op: x.Op, X: a, CommaOk: x.CommaOk}
 		}
+	case *ssa.IndexAddr:
+		a, i := substInto(c, h, x.X, depth+1), substInto(c, h, x.Index, depth+1)
+		if a != nil && i != nil {
+			out = &ssa.IndexAddr{X: a, Index: i}
+		}
+	case *ssa.Index:
+		a, i := substInto(c, h, x.X, depth+1), substInto(c, h, x.Index, depth+1)
+		if a != nil && i != nil {
+			out = &ssa.Index{X: a, Index: i}
+		}
+	case *ssa.Extract:
+		if a := substInto(c, h, x.Tuple, depth+1); a != nil {
+			out = &ssa.Extract{Tuple: a, Index: x.Index}
+		}
+	case *ssa.TypeAssert:
+		if a := substInto(c, h, x.X, depth+1); a != nil {
+			out = &ssa.TypeAssert{X: a, AssertedType: x.AssertedType, CommaOk: x.CommaOk}
+		}
+	case *ssa.MakeInterface:
+		if a := substInto(c, h, x.X, depth+1); a != nil {
+			out = &ssa.MakeInterface{X: a}
+		}
+	case *ssa.ChangeInterface:
+		out = substInto(c, h, x.X, depth+1)
 	case *ssa.Convert:
 		if a := substInto(c, h, x.X, depth+1); a != nil {
 			out = a // conversions between integer widths do not matter to the facts
@@ -182,12 +217,175 @@ func substInto(c *ssa.Call, h *ssa.Function, v ssa.Value, depth int) ssa.Value {
 			}
 			args = append(args, sa)
 		}
-		out = &ssa.Call{Call: ssa.CallCommon{Value: x.Call.Value, Args: args}}
+		out = &ssa.Call{Call: ssa.CallCommon{Value: x.Call.Value, Method: x.Call.Method, Args: args}}
+		dress(out, v.Type(), c)
+		out = inlineAccessor(out)
 	}
 	if out != nil {
+		switch v.(type) {
+		case *ssa.BinOp, *ssa.UnOp, *ssa.IndexAddr, *ssa.Index, *ssa.Extract, *ssa.TypeAssert, *ssa.MakeInterface, *ssa.FieldAddr:
+			fresh[out] = true
+		}
+	}
+	if out != nil {
+		if fresh[out] {
+			dress(out, v.Type(), c)
+		}
 		synthCache[key] = out
 	}
 	return out
+}
+
+// dependsOnParam: v is computed from a parameter (or free variable) of its function.
+func dependsOnParam(v ssa.Value, seen map[ssa.Value]bool, depth int) bool {
+	if seen[v] {
+		return false
+	}
+	seen[v] = true
+	switch x := v.(type) {
+	case *ssa.Parameter, *ssa.FreeVar:
+		return true
+	case *ssa.Const, *ssa.Global, *ssa.Function, *ssa.Builtin:
+		return false
+	case ssa.Instruction:
+		if depth > 12 {
+			return true
+		}
+		for _, o := range x.Operands(nil) {
+			if *o != nil && dependsOnParam(*o, seen, depth+1) {
+				return true
+			}
+		}
+	}
+	return false
+}
+
+// dress gives a rebuilt value the type of the value it stands for and places
+// it (for Block, Parent and Pos) at the call it was inlined at: a value
+// "as if written at the call site". It is in no block's instruction list and
+// has no referrers.
+func dress(v ssa.Value, t types.Type, at *ssa.Call) {
+	defer func() { _ = recover() }()
+	rv := reflect.ValueOf(v)
+	if rv.Kind() != reflect.Pointer {
+		return
+	}
+	rv = rv.Elem()
+	set := func(f reflect.Value, val any) {
+		if !f.IsValid() || !f.CanAddr() {
+			return
+		}
+		reflect.NewAt(f.Type(), unsafe.Pointer(f.UnsafeAddr())).Elem().Set(reflect.ValueOf(val).Convert(f.Type()))
+	}
+	if reg := rv.FieldByName("register"); reg.IsValid() {
+		if t != nil {
+			f := reg.FieldByName("typ")
+			if f.IsValid() && f.CanAddr() {
+				reflect.NewAt(f.Type(), unsafe.Pointer(f.UnsafeAddr())).Elem().Set(reflect.ValueOf(&t).Elem())
+			}
+		}
+		if at != nil {
+			set(reg.FieldByName("pos"), at.Pos())
+			if ai := reg.FieldByName("anInstruction"); ai.IsValid() && at.Block() != nil {
+				set(ai.FieldByName("block"), at.Block())
+			}
+		}
+	}
+}
+
+var accessorCache = map[*ssa.Function]int{} // 1 yes, 2 no
+
+// pureAccessor: a module function of packages exec, parser, path or types
+// with one non-boolean result computed in a single block, without effects,
+// from its parameters: field loads, constant or parameter indexing, len/cap,
+// arithmetic, conversions and calls of other such functions. Its call stands
+// for its body (`vl.size()` is `len(vl.list)`, `vl.first()` is `vl.list[0]`).
+func pureAccessor(fn *ssa.Function, depth int) bool {
+	if fn == nil {
+		return false
+	}
+	if r, ok := accessorCache[fn]; ok {
+		return r == 1
+	}
+	ok := pureAccessor0(fn, depth)
+	if ok {
+		accessorCache[fn] = 1
+	} else {
+		accessorCache[fn] = 2
+	}
+	return ok
+}
+
+func pureAccessor0(fn *ssa.Function, depth int) bool {
+	if fn.Blocks == nil || len(fn.Blocks) != 1 || depth > 3 || fn.Signature.Results().Len() != 1 || len(fn.FreeVars) > 0 {
+		return false
+	}
+	switch fnPkgPath(fn) {
+	case pkgExec, pkgParser, pkgPath, pkgTypes:
+	default:
+		return false
+	}
+	rt := fn.Signature.Results().At(0).Type()
+	if b, ok := rt.Underlying().(*types.Basic); ok && b.Kind() == types.Bool {
+		return false // boolean tests are handled as facts (purePredicate)
+	}
+	switch rt.Underlying().(type) {
+	case *types.Basic, *types.Interface, *types.Slice:
+	default:
+		return false
+	}
+	uses := false
+	for _, ins := range fn.Blocks[0].Instrs {
+		switch x := ins.(type) {
+		case *ssa.DebugRef, *ssa.Return, *ssa.BinOp, *ssa.FieldAddr, *ssa.IndexAddr, *ssa.Index, *ssa.Convert, *ssa.ChangeType:
+		case *ssa.UnOp:
+			if x.Op != token.MUL && x.Op != token.SUB && x.Op != token.NOT {
+				return false
+			}
+			if x.Op == token.MUL {
+				// loads of fields and elements only
+				switch x.X.(type) {
+				case *ssa.FieldAddr, *ssa.IndexAddr:
+					uses = true
+				default:
+					return false
+				}
+			}
+		case *ssa.Call:
+			if bi, ok := x.Call.Value.(*ssa.Builtin); ok && (bi.Name() == "len" || bi.Name() == "cap") {
+				uses = true
+				continue
+			}
+			if !pureAccessor(x.Call.StaticCallee(), depth+1) {
+				return false
+			}
+			uses = true
+		default:
+			return false
+		}
+	}
+	return uses
+}
+
+// inlineAccessor: the body of a pure accessor over the arguments of its call,
+// or v itself.
+func inlineAccessor(v ssa.Value) ssa.Value {
+	c, ok := v.(*ssa.Call)
+	if !ok || c.Call.IsInvoke() {
+		return v
+	}
+	h := c.Call.StaticCallee()
+	if h == nil || !pureAccessor(h, 0) {
+		return v
+	}
+	ret, ok := h.Blocks[0].Instrs[len(h.Blocks[0].Instrs)-1].(*ssa.Return)
+	if !ok || len(ret.Results) != 1 {
+		return v
+	}
+	if sv := substInto(c, h, ret.Results[0], 0); sv != nil {
+		return sv
+	}
+	return v
 }
 
 // inlinePredicateFacts: what a call of a pure predicate being true (false)
@@ -236,6 +434,12 @@ func stripConv(v ssa.Value) ssa.Value {
 			v = x.X
 		case *ssa.ChangeInterface:
 			v = x.X
+		case *ssa.Call:
+			nv := inlineAccessor(x)
+			if nv == v {
+				return v
+			}
+			v = nv
 		default:
 			return v
 		}
